@@ -99,6 +99,25 @@ Proof.
   - rewrite L. unfold c, vc_put_lines. cbn [p_n p_text]. rewrite vi_linecount_nl.
     unfold c, vc_put_lines in Hcnt. cbn [p_text] in Hcnt. rewrite Hcnt. lia.
 Qed.
+
+(* vc_put, character-wise, on an EMPTY buffer: ln = "\n", lbuf_edit(text, 0, 1) is clamped to an insertion at 0, the call is
+   still vi_drawfix(0, 0, lncnt, 0).  The screen of an empty buffer is its first row (drawn blank: `first`) over filler rows. *)
+Theorem site_put_chars_empty (first : R) h reg cnt :
+  1 <= h ->
+  let c := vc_put_chars 0 [] [10%N] reg cnt in
+  let buf' := text_lines (p_text c) in
+  put_screen R blank (fimg buf') 0 h c (win (fun i => if i =? 0 then first else img None) 0 h) = win (fimg buf') 0 h.
+Proof.
+  intros Hh c buf'. unfold put_screen.
+  assert (Hn : p_n c = Z.of_nat (length buf')) by (apply (put_chars_n 0 [] [] reg cnt)).
+  rewrite Hn. unfold c. cbn [p_r1 p_r2 vc_put_chars].
+  change (Z.of_nat 0) with (Z.of_nat 1 - 1)%Z at 2.
+  apply (drawfix_is_repaint R blank (fun i => if i =? 0 then first else img None) (fimg buf') 0 h 0 1 (length buf')); try lia.
+  - intro k. cbn [plus]. unfold DrawProps.fimg.
+    replace (nth_error buf' (length buf' + k)) with (@None (list N)); [reflexivity|].
+    symmetry. apply nth_error_None. lia.
+  - left. split; lia.
+Qed.
 End PutSites.
 
 (* the count matters: with the row count taken from the register alone (linecount(buf), what a "count the register once"
